@@ -50,6 +50,8 @@ def structural_decoding(rep: Report, prog: Program, rid: str) -> None:
         for n in ast.walk(fi.node):
             if isinstance(n, ast.Assign) and len(n.targets) == 1 and isinstance(n.targets[0], ast.Name):
                 defs.setdefault(n.targets[0].id, []).append(n.value)
+            elif isinstance(n, ast.AnnAssign) and isinstance(n.target, ast.Name) and n.value is not None:
+                defs.setdefault(n.target.id, []).append(n.value)
 
         def keys_of(e: ast.AST, depth: int = 0) -> Set[str]:
             out: Set[str] = set()
@@ -255,10 +257,25 @@ def run(rep: Report) -> None:
     uf = prog.func("Unit.__from_json__")
     jparam = uf.params()[1]
     base_ok = False
+    udefs: Dict[str, ast.AST] = {}
     for n in ast.walk(uf.node):
-        if isinstance(n, (ast.If, ast.IfExp)) and f"{jparam}['factors']" in ast.unparse(n.test).replace('"', "'"):
+        if isinstance(n, ast.Assign) and len(n.targets) == 1 and isinstance(n.targets[0], ast.Name):
+            udefs.setdefault(n.targets[0].id, n.value)
+        elif isinstance(n, ast.AnnAssign) and isinstance(n.target, ast.Name) and n.value is not None:
+            udefs.setdefault(n.target.id, n.value)
+
+    def expanded(e: ast.AST, depth: int = 0) -> str:
+        """Text of e plus the text of the local definitions it uses."""
+        txt = ast.unparse(e).replace('"', "'")
+        if depth < 3:
+            for x in ast.walk(e):
+                if isinstance(x, ast.Name) and x.id in udefs and x.id != jparam:
+                    txt += " " + expanded(udefs[x.id], depth + 1)
+        return txt
+    for n in ast.walk(uf.node):
+        if isinstance(n, (ast.If, ast.IfExp)) and f"{jparam}['factors']" in expanded(n.test):
             for sub in ast.walk(n):
-                if isinstance(sub, ast.Subscript) and ast.unparse(sub.value).endswith("._by_name") and f"{jparam}['name']" in ast.unparse(sub.slice).replace('"', "'"):
+                if isinstance(sub, ast.Subscript) and ast.unparse(sub.value).endswith("._by_name") and f"{jparam}['name']" in expanded(sub.slice):
                     base_ok = True
                 if isinstance(sub, ast.Call) and ast.unparse(sub.func).endswith(".named"):
                     base_ok = True
